@@ -351,3 +351,197 @@ fn big_one(v: &Vec<u8>, hunted: bool) -> Vec<String> {
     }
     out
 }
+
+// ---------------------------------------------------------------------------------------------
+// `CryptoWriter` driven directly by a program of writes and flushes (the way user code uses it with
+// `savefile::save`): how the plaintext is cut into frames (model: `CW.chunksProg`), and whether the reader
+// that consumes exactly the written plaintext notices every change to the stream, its tail included.
+
+enum CwOp {
+    W(usize),
+    F,
+}
+
+fn cw_program(r: &mut Rng) -> Vec<CwOp> {
+    const B: usize = 100_000;
+    let mut ops = Vec::new();
+    let around = |r: &mut Rng, k: usize| -> usize {
+        let d = [0i64, 0, 0, 1, -1, 2, -2, 16, -16][r.below(9) as usize];
+        ((k * B) as i64 + d).max(0) as usize
+    };
+    match r.below(6) {
+        // one write of (a multiple of) the chunk size, give or take a little
+        0 => {
+            let k = 1 + r.below(3) as usize;
+            ops.push(CwOp::W(around(r, k)))
+        }
+        // many small writes that add up to the chunk size exactly (or nearly)
+        1 => {
+            let total = around(r, 1);
+            let mut left = total;
+            while left > 0 {
+                let n = (1 + r.below(9000) as usize).min(left);
+                ops.push(CwOp::W(n));
+                left -= n;
+            }
+        }
+        // explicit flushes at arbitrary points, empty ones included
+        2 => {
+            for _ in 0..(1 + r.below(6)) {
+                match r.below(4) {
+                    0 => ops.push(CwOp::F),
+                    1 => ops.push(CwOp::W(around(r, 1))),
+                    _ => ops.push(CwOp::W(r.below(3000) as usize)),
+                }
+            }
+        }
+        // a flush exactly when a whole chunk is buffered, then more
+        3 => {
+            ops.push(CwOp::W(B));
+            ops.push(CwOp::F);
+            if r.chance(1, 2) {
+                ops.push(CwOp::W(r.below(50) as usize));
+            }
+        }
+        // small streams
+        4 => {
+            for _ in 0..r.below(5) {
+                if r.chance(1, 4) {
+                    ops.push(CwOp::F)
+                } else {
+                    ops.push(CwOp::W(r.below(40) as usize))
+                }
+            }
+        }
+        _ => {
+            ops.push(CwOp::W(r.below(B as u64) as usize));
+            ops.push(CwOp::W(around(r, 1)));
+        }
+    }
+    ops
+}
+
+/// reads exactly `n` plaintext bytes and stops, as a loader does
+fn read_exactly(password: &str, file: &[u8], n: usize) -> Result<Vec<u8>, String> {
+    let mut cur = std::io::Cursor::new(file);
+    let r = catch_unwind(AssertUnwindSafe(|| -> Result<Vec<u8>, String> {
+        let mut rd = savefile::CryptoReader::new(&mut cur, key_of(password)).map_err(|e| err_class(&e))?;
+        let mut buf = vec![0u8; n];
+        rd.read_exact(&mut buf).map_err(|e| format!("{:?}", e.kind()))?;
+        Ok(buf)
+    }));
+    match r {
+        Ok(x) => x,
+        Err(_) => Err(format!("panic {}", panic_class(&last_panic()))),
+    }
+}
+
+pub fn cw_cases(r: &mut Rng, n: usize) -> Vec<String> {
+    use std::io::Write;
+    let mut out = Vec::new();
+    for _ in 0..n {
+        let ops = cw_program(r);
+        let mut data: Vec<u8> = Vec::new();
+        let mut stream: Vec<u8> = Vec::new();
+        let fill = r.next() as u8;
+        let res = catch_unwind(AssertUnwindSafe(|| -> Result<(), String> {
+            let mut w = savefile::CryptoWriter::new(&mut stream, key_of(PASSWORD)).map_err(|e| err_class(&e))?;
+            for op in ops.iter() {
+                match op {
+                    CwOp::W(k) => {
+                        let chunk: Vec<u8> = (0..*k).map(|i| fill.wrapping_add((i % 251) as u8)).collect();
+                        w.write_all(&chunk).map_err(|e| e.to_string())?;
+                        data.extend_from_slice(&chunk);
+                    }
+                    CwOp::F => w.flush().map_err(|e| e.to_string())?,
+                }
+            }
+            w.flush_final().map_err(|e| err_class(&e))
+        }));
+        let req = format!(
+            "(cwprog {})",
+            ops.iter().map(|o| match o { CwOp::W(k) => format!("(w {})", k), CwOp::F => "f".to_string() }).collect::<Vec<_>>().join(" ")
+        );
+        match res {
+            Ok(Ok(())) => {}
+            Ok(Err(e)) => {
+                out.push(format!("!C14 crypto-writer-fails-on-good-sink prog={} got={}", req.replace(' ', "_"), e.replace(' ', "_")));
+                continue;
+            }
+            Err(_) => {
+                out.push(format!("!C14 crypto-writer-panics prog={} got={}", req.replace(' ', "_"), panic_class(&last_panic())));
+                continue;
+            }
+        }
+        // independent parse of the stream: frame plaintext lengths, and the plaintext itself
+        let mut lens = Vec::new();
+        let mut plain = Vec::new();
+        let mut wellformed = stream.len() >= 12;
+        if wellformed {
+            let mut d1 = u64::from_le_bytes(stream[..8].try_into().unwrap());
+            let mut d2 = u32::from_le_bytes(stream[8..12].try_into().unwrap());
+            let mut pos = 12usize;
+            while pos < stream.len() {
+                if stream.len() - pos < 8 {
+                    wellformed = false;
+                    break;
+                }
+                let len = u64::from_le_bytes(stream[pos..pos + 8].try_into().unwrap()) as usize;
+                pos += 8;
+                if len < 16 || stream.len() - pos < len {
+                    wellformed = false;
+                    break;
+                }
+                let nonce = advance(&mut d1, &mut d2);
+                match aead_open(PASSWORD, nonce, &stream[pos..pos + len]) {
+                    Some(p) => {
+                        lens.push(p.len());
+                        plain.extend_from_slice(&p);
+                    }
+                    None => {
+                        wellformed = false;
+                        break;
+                    }
+                }
+                pos += len;
+            }
+        }
+        if !wellformed || plain != data {
+            out.push(format!("!C14 written-stream-is-not-the-frames-of-its-plaintext prog={} wellformed={} plain={} written={}", req.replace(' ', "_"), wellformed, plain.len(), data.len()));
+            continue;
+        }
+        out.push(format!("{}\t(ok ({}))", req, lens.iter().map(|l| l.to_string()).collect::<Vec<_>>().join(" ")));
+        out.push(format!("#stat cw-frames-{} 1", lens.len().min(4)));
+        if data.is_empty() {
+            continue;
+        }
+        // the intact stream gives the plaintext back
+        match read_exactly(PASSWORD, &stream, data.len()) {
+            Ok(p) if p == data => {}
+            other => out.push(format!("!C14 intact-stream-does-not-read-back prog={} got={}", req.replace(' ', "_"), other.map(|p| format!("{}_bytes", p.len())).unwrap_or_else(|e| e.replace(' ', "_")))),
+        }
+        // every truncation of the tail, and single-bit changes in the tail, the nonce and at random places,
+        // must be noticed by a reader that consumes exactly the plaintext
+        let mut probes: Vec<(String, Vec<u8>)> = Vec::new();
+        for t in 1..=40usize.min(stream.len()) {
+            probes.push((format!("cut-{}", t), stream[..stream.len() - t].to_vec()));
+        }
+        for k in 0..24 {
+            let pos = if k < 12 { stream.len() - 1 - (r.below(40.min(stream.len() as u64)) as usize) } else { r.below(stream.len() as u64) as usize };
+            let mut m = stream.clone();
+            m[pos] ^= 1 << r.below(8);
+            probes.push((format!("flip-at-{}-of-{}", pos, stream.len()), m));
+        }
+        for (what, m) in probes {
+            out.push("#stat cw-tamper-probes 1".into());
+            if let Ok(p) = read_exactly(PASSWORD, &m, data.len()) {
+                out.push(format!(
+                    "!C14 tampered-stream-accepted prog={} change={} frames={:?} same-plaintext={}",
+                    req.replace(' ', "_"), what, lens, p == data
+                ));
+                break;
+            }
+        }
+    }
+    out
+}
